@@ -543,3 +543,6 @@ for n_ in ("diriter_run_cut_by_deleted", "diriter_run_cut_by_label"):
           "is listed WITHOUT the foreign long name, its slot range starts behind the skipped slot",
           "concrete slot kinds and order byte, symbolic units and short name; fixed-buffer build", build="noalloc", timeout=1500,
           cbmc_args=FS128))
+
+add(twin("dir::verif::ops::twin_find_free_always_appends", ["C01", "C03", "C05"],
+         "claims new entries are always appended at the end marker (holes never reused)", "pos == e as u64 * 32", build="bare", timeout=1500))
